@@ -13,8 +13,11 @@ package suites
 import (
 	"bytes"
 	"encoding/binary"
+	"encoding/hex"
 	"encoding/json"
 	"fmt"
+	"github.com/ethereum/go-ethereum/crypto"
+	"math/big"
 	"os"
 	"path/filepath"
 	"strings"
@@ -61,6 +64,27 @@ func refReportBytes(id, ts uint32, p uint64, sig glow.Signature) []byte {
 	binary.LittleEndian.PutUint64(x[8:], p)
 	copy(x[16:], sig[:])
 	return x[:]
+}
+
+// refVerify is the harness' own signature check (go-ethereum directly: compressed key with the 0x02
+// prefix, Keccak256, canonical low-s signatures only) -- independent of the repository's glow.Verify.
+func refVerify(pub glow.PublicKey, msg []byte, sig glow.Signature) bool {
+	k, err := crypto.DecompressPubkey(append([]byte{0x02}, pub[:]...))
+	if err != nil {
+		return false
+	}
+	return crypto.VerifySignature(crypto.FromECDSAPub(k), crypto.Keccak256(msg), sig[:])
+}
+
+// malleate returns the (r, n-s) twin of a signature: valid ECDSA mathematically, but not canonical.
+func malleate(sig glow.Signature) glow.Signature {
+	n := crypto.S256().Params().N
+	s := new(big.Int).SetBytes(sig[32:])
+	s.Sub(n, s)
+	var out glow.Signature
+	copy(out[:32], sig[:32])
+	s.FillBytes(out[32:])
+	return out
 }
 
 type device struct {
@@ -114,10 +138,47 @@ func (a *actors) report(w *srv.World, d *device, ts uint32, p uint64, signer srv
 	return refReportBytes(d.ID, ts, p, sig)
 }
 
+// snapJSON serialises a snapshot canonically (maps with array keys are re-keyed by hex strings;
+// encoding/json sorts map keys).  It panics rather than return an empty string.
+func snapJSON(sn server.VerifSnap, withImpact bool) string {
+	type flat struct {
+		Offset, HistoryOffset uint32
+		Equipment             map[uint32]glow.EquipmentAuthorization
+		Index                 map[string]uint32
+		Bans                  []uint32
+		Reports               map[uint32][]server.VerifSlot
+		Impact                map[uint32][]server.VerifRate
+		History               []string
+		GCAKey                string
+		GCAAvailable          bool
+		TempKey, PublicKey    string
+	}
+	f := flat{Offset: sn.Offset, HistoryOffset: sn.HistoryOffset, Equipment: sn.Equipment, Index: map[string]uint32{}, Bans: sn.Bans,
+		Reports: sn.Reports, GCAKey: hex.EncodeToString(sn.GCAKey[:]), GCAAvailable: sn.GCAAvailable,
+		TempKey: hex.EncodeToString(sn.TempKey[:]), PublicKey: hex.EncodeToString(sn.PublicKey[:])}
+	for k, v := range sn.Index {
+		f.Index[hex.EncodeToString(k[:])] = v
+	}
+	if withImpact {
+		f.Impact = sn.Impact
+	}
+	for _, h := range sn.History {
+		f.History = append(f.History, srv.CoqStats(h)+hex.EncodeToString(h.Signature[:]))
+	}
+	if f.Bans == nil {
+		f.Bans = []uint32{}
+	}
+	j, err := json.Marshal(f)
+	if err != nil {
+		panic("snapJSON: " + err.Error())
+	}
+	return string(j)
+}
+
 // stateDigest is what "every observable" is compared on: the hook snapshot plus the report log.
 func stateDigest(w *srv.World) string {
 	sn := w.S.VerifSnapshot()
-	j, _ := json.Marshal(sn)
+	j := snapJSON(sn, true)
 	st, _ := os.Stat(filepath.Join(w.Dir, "equipment-reports.dat"))
 	var sz int64 = -1
 	if st != nil {
@@ -146,7 +207,7 @@ func c01Allowed(w *srv.World, sn server.VerifSnap, d []byte, now uint32) (bool, 
 			return false, "banned-device"
 		}
 	}
-	if !glow.Verify(ea.PublicKey, refReportSigningBytes(id, ts, p), sig) {
+	if !refVerify(ea.PublicKey, refReportSigningBytes(id, ts, p), sig) {
 		return false, "bad-signature"
 	}
 	if int64(ts) < int64(now)-432 || int64(ts) > int64(now)+432 {
@@ -257,7 +318,14 @@ func boundaryTour(res *core.Result, r *core.RNG) (*srv.World, error) {
 	copy(sw[0:4], v[4:8])
 	copy(sw[4:8], v[0:4])
 	deliver(res, w, sw, "field-swap", false)
+	// the non-canonical (r, n-s) twin of a genuine signature: alone, and after the original
+	var vs glow.Signature
+	copy(vs[:], v[16:80])
+	tw := malleate(vs)
+	twin := append(append([]byte{}, v[:16]...), tw[:]...)
+	deliver(res, w, twin, "malleated-twin", false)
 	deliver(res, w, v, "valid", false)
+	deliver(res, w, twin, "malleated-twin", false)
 	deliver(res, w, v, "replay", false)
 	// window start: clock near the window start
 	w.SetNow(off + 100)
@@ -365,7 +433,15 @@ func randomHistory(res *core.Result, r *core.RNG, tier string) (*srv.World, erro
 				}
 			case 2:
 				if len(sent) > 0 {
-					deliver(res, w, sent[r.Intn(len(sent))], "rnd-replay", false)
+					g := sent[r.Intn(len(sent))]
+					if r.Chance(50) {
+						var gs glow.Signature
+						copy(gs[:], g[16:80])
+						tw := malleate(gs)
+						deliver(res, w, append(append([]byte{}, g[:16]...), tw[:]...), "rnd-malleated-twin", false)
+					} else {
+						deliver(res, w, g, "rnd-replay", false)
+					}
 				}
 			case 3:
 				o := a.Devices[r.Intn(len(a.Devices))]
@@ -429,7 +505,7 @@ func finishWorld(res *core.Result, w *srv.World, items *[]string) {
 	}
 }
 
-const serverImports = "From Coq Require Import ZArith List String.\nFrom GCA Require Import Bytes Codec Server RunLib ServerRun."
+const serverImports = "From Coq Require Import ZArith List String.\nFrom GCA Require Import Bytes Codec Server Archive RunLib ServerRun."
 
 func writeServerCases(res *core.Result, out, name string, items []string) error {
 	// shard into files of bounded size
@@ -501,7 +577,7 @@ func reportsWorker(res *core.Result, r *core.RNG, tier, out string) error {
 	res.Required = []string{"dgram.now+432", "dgram.now+433", "dgram.now-432", "dgram.now-433", "dgram.power0", "dgram.power1", "dgram.power2",
 		"dgram.short79", "dgram.long-valid-prefix", "dgram.signed-by-other-device", "dgram.signed-by-gca", "dgram.signed-by-server", "dgram.unknown-id",
 		"dgram.banned-device", "dgram.bitflip", "dgram.field-swap", "dgram.window-start-1", "dgram.window-start", "dgram.window-end-1", "dgram.window-end",
-		"dgram.lowclock-ts0", "outcome.changed"}
+		"dgram.lowclock-ts0", "dgram.malleated-twin", "outcome.changed"}
 	res.Rule = "per history: clock/offset configuration from the boundary table, 1-4 authorized devices, 20-60 datagrams (60% valid-shaped at boundary timeslots/powers, 40% hostile: random bytes, bit flips, truncations, extensions, re-signings under every other key, field swaps), plus a scripted boundary tour; non-trivial = at least one state-changing operation and one ignored datagram; distinct by full history"
 	_ = bytes.Equal
 	return writeServerCases(res, out, "reports", items)
